@@ -78,8 +78,14 @@ Definition outer_sum (w : list t) (qs : list quat) : mat4 :=
 Definition mat4_rows (M : mat4) : list (list t) :=
   map (fun i => map (fun j => M i j) [0; 1; 2; 3]%nat) [0; 1; 2; 3]%nat.
 
-(* eig : the eigen-solver oracle (EigenSolver + maxCoeff on the real parts of the
-   eigenvalues + the corresponding real eigenvector column) *)
+(* eig : the eigen-solver oracle: SelfAdjointEigenSolver of the accumulated matrix, maxCoeff on its
+   eigenvalues (the FIRST index attaining the largest eigenvalue, the solver sorts them increasingly) and
+   that column of eigenvectors().  (Until /repo commit "fix: mean_quaternion uses the self-adjoint eigen
+   solver" the general EigenSolver was used, its info() unchecked, and the real part of a possibly complex
+   eigenvector column was returned: not a unit vector on a repeated largest eigenvalue; the two inputs that
+   showed it are corpus cases of props/C18.py.)  Which unit eigenvector of a repeated largest eigenvalue is
+   returned is below the resolution of the contract used in the proofs; the zero matrix (weights 1/2, -1/2 on
+   equal inputs, as in test_QuaternionUtils) gives (1, 0, 0, 0) in the library and in the driver's oracle. *)
 Definition qmean (eig : list (list t) -> quat) (w : list t) (qs : list quat) : quat :=
   eig (mat4_rows (outer_sum w qs)).
 
